@@ -58,6 +58,10 @@ pub struct Graph {
 pub struct TableModel {
     pub g: Arc<Graph>,
     names: Vec<&'static str>,
+    /// number of evaluations of the first property's condition (= number of evaluated states while it has no discovery)
+    pub evals: Arc<AtomicU64>,
+    /// family "ladder": how often the join of each level has been computed (rendezvous of the two rails)
+    arrivals: Arc<Vec<AtomicU64>>,
 }
 
 fn leak(s: &str) -> &'static str {
@@ -75,14 +79,20 @@ fn leak(s: &str) -> &'static str {
 impl TableModel {
     pub fn new(g: Graph) -> Self {
         let names = g.props.iter().map(|p| leak(&p.name)).collect();
+        let levels = if g.family == "ladder" { g.params[0] as usize } else { 0 };
         TableModel {
             g: Arc::new(g),
             names,
+            evals: Arc::new(AtomicU64::new(0)),
+            arrivals: Arc::new((0..levels).map(|_| AtomicU64::new(0)).collect()),
         }
     }
     fn sat(&self, i: usize, s: u32) -> bool {
         if self.g.poison != 0 && s == self.g.poison {
             panic!("poisoned node evaluated");
+        }
+        if i == 0 {
+            self.evals.fetch_add(1, Ordering::SeqCst);
         }
         let p = &self.g.props[i];
         match p.mode.as_str() {
@@ -160,6 +170,16 @@ impl TableModel {
                     ((2 * i + 1) % 4_000_000_007u64) as u32 + 1,
                 ]
             }
+            // two rails of `levels` states whose rungs meet in shared join states (every join has two parents)
+            "ladder" => {
+                let l = g.params[0] as u32;
+                if s <= 2 * l {
+                    let (side, lvl) = ((s - 1) / l, (s - 1) % l);
+                    vec![if lvl + 1 < l { side * l + lvl + 2 } else { 0 }, 2 * l + lvl + 1]
+                } else {
+                    vec![]
+                }
+            }
             // effectively unbounded chain: exactly one successor per state
             "unbounded_chain" => vec![(s % 4_000_000_000u32) + 1],
             f => panic!("unknown family {f}"),
@@ -204,6 +224,17 @@ impl Model for TableModel {
     }
     fn next_state(&self, s: &u32, a: u16) -> Option<u32> {
         let t = self.succs(*s)[(a - 1) as usize];
+        if self.g.family == "ladder" && a == 2 && !self.arrivals.is_empty() {
+            // the first of the two computations of a join waits briefly for the second one, so that two workers
+            // walking the two rails stay side by side (timing only; widens the window of insert-if-absent races)
+            let lvl = ((*s - 1) % self.g.params[0] as u32) as usize;
+            if self.arrivals[lvl].fetch_add(1, Ordering::SeqCst) == 0 {
+                let t0 = Instant::now();
+                while self.arrivals[lvl].load(Ordering::SeqCst) < 2 && t0.elapsed() < Duration::from_micros(200) {
+                    std::hint::spin_loop();
+                }
+            }
+        }
         if t == 0 {
             None
         } else {
@@ -602,11 +633,11 @@ pub fn run_one(g: &Graph, cfg: &Cfg) -> Value {
             "unique": o.unique, "total": o.total, "max_depth": o.max_depth,
             "discoveries": o.discoveries, "disc_panicked": o.disc_panicked,
             "assert_panicked": o.assert_panicked, "handles_left": o.handles_left,
-            "wall_ms": o.wall_ms as u64, "spawn_panicked": false}),
+            "wall_ms": o.wall_ms as u64, "spawn_panicked": false, "evals": model.evals.load(Ordering::SeqCst)}),
         None => json!({
             "joined": false, "join_panicked": false, "is_done": false, "unique": 0, "total": 0,
             "max_depth": 0, "discoveries": [], "disc_panicked": false, "assert_panicked": false,
-            "handles_left": 0, "wall_ms": 0, "spawn_panicked": spawn_panicked}),
+            "handles_left": 0, "wall_ms": 0, "spawn_panicked": spawn_panicked, "evals": 0}),
     };
     json!({"cfg": cfg, "visits": visits, "chooser": chooser, "chooser2": chooser2, "done": done, "market": market})
 }
